@@ -103,8 +103,10 @@ func c13Eval(d c13Doc) (map[string]string, string) {
 		safe("TransformModuleFilesToModel", func() string {
 			m, err := transformer.TransformModuleFilesToModel(files, "1.2")
 			if err != nil {
-				return "ERR:" + err.Error()
+				c13Hold("the error returned by TransformModuleFilesToModel", func() string { return mergeErrText(err) })
+				return "ERR:" + mergeErrText(err)
 			}
+			c13Hold("the model returned by TransformModuleFilesToModel", func() string { return fingerprint(m) })
 			return "OK:" + fingerprint(m)
 		})
 		for i := range files {
@@ -220,7 +222,55 @@ type c13Machine struct {
 	base []map[string]string
 }
 
+// Values handed out by earlier calls belong to the caller: no later call may change them (a cached object handed out
+// twice, a package-level error value whose fields are overwritten). A bounded sample is kept per history and
+// re-rendered after every step.
+type c13HeldValue struct {
+	what   string
+	render func() string
+	first  string
+}
+
+var c13Held struct {
+	sync.Mutex
+	on   bool
+	list []c13HeldValue
+}
+
+func c13HoldReset(on bool) {
+	c13Held.Lock()
+	c13Held.on, c13Held.list = on, nil
+	c13Held.Unlock()
+}
+
+func c13Hold(what string, render func() string) {
+	c13Held.Lock()
+	defer c13Held.Unlock()
+	if !c13Held.on || len(c13Held.list) >= 48 {
+		return
+	}
+	c13Held.list = append(c13Held.list, c13HeldValue{what: what, render: render, first: render()})
+}
+
+func c13CheckHeld() string {
+	c13Held.Lock()
+	defer c13Held.Unlock()
+	for _, h := range c13Held.list {
+		if now := h.render(); now != h.first {
+			return fmt.Sprintf("%s was changed by a later call: it read %.300q when it was returned, now %.300q", h.what, h.first, now)
+		}
+	}
+	return ""
+}
+
 func (mc *c13Machine) apply(st c13Step) string {
+	if msg := mc.applyStep(st); msg != "" {
+		return msg
+	}
+	return c13CheckHeld()
+}
+
+func (mc *c13Machine) applyStep(st c13Step) string {
 	switch st.Op {
 	case "new":
 		res, pur := c13Eval(*st.Doc)
@@ -420,7 +470,7 @@ const c13Rule = "rapid state machine over call histories: a pool of inputs grows
 
 func c13DrawDoc(rt *rapid.T, corp *gen.Corpus) c13Doc {
 	all := append(append([]string{}, corp.DSL...), corp.Syntax...)
-	switch rapid.IntRange(0, 11).Draw(rt, "docKind") {
+	switch rapid.IntRange(0, 12).Draw(rt, "docKind") {
 	case 0, 1:
 		return c13Doc{Kind: "dsl", Text: rapid.SampledFrom(all).Draw(rt, "corpusDoc")}
 	case 2:
@@ -468,6 +518,24 @@ func c13DrawDoc(rt *rapid.T, corp *gen.Corpus) c13Doc {
 		d := c13Doc{Kind: "merge", Text: ms.Files[0].Text}
 		for _, f := range ms.Files[1:] {
 			d.More = append(d.More, f.Text)
+		}
+		return d
+	case 11:
+		// merges that fail: model files (not modules), documents with syntax errors and module files in any position
+		// (error values are results too, and error paths are where shared sentinels live)
+		pick := func() string {
+			switch rapid.IntRange(0, 3).Draw(rt, "mergeFileKind") {
+			case 0:
+				return rapid.SampledFrom(corp.DSL).Draw(rt, "modelFile")
+			case 1:
+				return rapid.SampledFrom(corp.Syntax).Draw(rt, "brokenFile")
+			default:
+				return rapid.SampledFrom(corp.Modules).Draw(rt, "moduleFile")
+			}
+		}
+		d := c13Doc{Kind: "merge", Text: pick()}
+		for i, n := 0, rapid.IntRange(0, 2).Draw(rt, "moreFiles"); i < n; i++ {
+			d.More = append(d.More, pick())
 		}
 		return d
 	default:
@@ -532,6 +600,7 @@ func TestC13(t *testing.T) {
 	}
 	rapid.Check(t, func(rt *rapid.T) {
 		mc := &c13Machine{}
+		c13HoldReset(true)
 		var steps []c13Step
 		againFar, shared := false, false
 		coldSteps := 0
@@ -646,6 +715,7 @@ func TestReplayC13(t *testing.T) {
 		rec := ev.New("C13", c13Rule)
 		for rep := 0; rep < 3; rep++ {
 			mc := &c13Machine{}
+			c13HoldReset(true)
 			for _, st := range in.Steps {
 				if msg := mc.apply(st); msg != "" {
 					rec.Violation(in, msg)
